@@ -389,7 +389,7 @@ std::string stress_input(const std::string &fam, long n) {
 }  // namespace sb
 
 // ------------------------------------------------------------ workload
-struct CorpusEntry { std::string rel; std::string data; int target; bool pponly; std::string source; };
+struct CorpusEntry { std::string rel; std::string data; int target; bool pponly; std::string source; std::vector<VFile> more; };
 static std::vector<CorpusEntry> g_corpus;   // /repo/test/*.c followed by the feature snippets: the exhaustive spaces run over these
 static std::vector<CorpusEntry> g_own;      // cproc's own sources, preprocessed: large, sampled only
 static size_t g_ntest = 0;
@@ -448,7 +448,21 @@ static void load_corpus() {
 		// features larger than 2 KiB are sampled like cproc's own sources; the single-fault spaces stay small
 		std::vector<CorpusEntry> feats;
 		load_dir(g_featdir, "feat:", "feat/", ".c", feats);
-		for (auto &c : feats) (c.data.size() > 2048 ? g_own : g_corpus).push_back(c);
+		// pair-NAME.1.c, pair-NAME.2.c, ...: one workload entry, several files on the command line
+		std::vector<CorpusEntry> singles;
+		for (auto &c : feats) {
+			size_t b = c.rel.rfind('/');
+			std::string base = c.rel.substr(b == std::string::npos ? 0 : b + 1);
+			if (base.compare(0, 5, "pair-") == 0 && base.size() > 9 && base[base.size() - 4] == '.' && base[base.size() - 3] != '1') {
+				std::string first = c.rel;
+				first[first.size() - 3] = '1';   // ".2.c" -> ".1.c" (directory listing is sorted: the first part is already there)
+				bool attached = false;
+				for (auto &s1 : singles) if (s1.rel == first) { s1.more.push_back({c.rel, c.source, c.data}); attached = true; }
+				if (attached) continue;
+			}
+			singles.push_back(c);
+		}
+		for (auto &c : singles) (c.data.size() > 2048 ? g_own : g_corpus).push_back(c);
 	}
 	if (!g_owndir.empty()) load_dir(g_owndir, "own:", "own/", ".i", g_own);
 }
@@ -509,6 +523,7 @@ static void set_corpus(Plan &p, size_t idx, Rng &r, bool vary_target) {
 	f.source = c.source;
 	f.data = c.data;
 	p.files.push_back(f);
+	for (auto &m : c.more) p.files.push_back(m);
 	p.target = c.target;
 	p.pponly = c.pponly;
 	if (vary_target && c.rel.find('+') == std::string::npos && r.coin(3, 10)) p.target = 1 + (int)r.below(3);
@@ -688,7 +703,8 @@ static Plan gen_c19(uint64_t seed, uint64_t index) {
 	case 1: f.seam = "read"; f.index = (long)r.below(pr.nread + 1); f.err = ERR_READ[r.below(4)]; break;
 	case 2: f = gen_write_fault(r, pr.nwrite); break;
 	case 3:
-		if (p.via_stdin || r.coin(1, 2)) { f.seam = "freopen"; f.index = 0; f.err = r.coin(1, 2) ? EACCES : ENOSPC; p.dash_o = true; }
+		if (r.coin(1, 4)) { f.seam = "rename"; f.index = 0; f.err = r.coin(1, 2) ? EISDIR : EXDEV; p.dash_o = true; }
+		else if (p.via_stdin || r.coin(1, 2)) { f.seam = "freopen"; f.index = 0; f.err = r.coin(1, 2) ? EACCES : ENOSPC; p.dash_o = true; }
 		else { f.seam = "fopen"; f.index = (long)r.below((uint32_t)p.files.size()); f.err = ERR_OPEN[r.below(5)]; }
 		break;
 	case 4: case 5: f.seam = "eof"; f.file = (int)r.below((uint32_t)p.files.size()); f.index = (long)r.below((uint32_t)p.files[f.file].data.size() + 1); break;
@@ -791,7 +807,7 @@ static Plan space_plan(const std::string &name, uint64_t index, const std::strin
 // ------------------------------------------------------------ oracles
 struct Verdict { std::string cls, detail, sig; };
 
-static bool io_fault(uint32_t fired) { return fired & (F_READ | F_WRITE | F_FOPEN | F_FREOPEN); }
+static bool io_fault(uint32_t fired) { return fired & (F_READ | F_WRITE | F_FOPEN | F_FREOPEN | F_RENAME); }
 
 static std::string describe_diff(const std::string &a, const std::string &b) {
 	size_t n = std::min(a.size(), b.size()), i = 0;
@@ -833,7 +849,7 @@ static Verdict evaluate(const Plan &p, const Outcome &o, const Ref &ref, const s
 			return v;
 		}
 		if (io_fault(r.fired) && r.status == 0) {
-			const char *seam = r.fired & F_READ ? "read" : r.fired & F_WRITE ? "write" : r.fired & F_FOPEN ? "fopen" : "freopen";
+			const char *seam = r.fired & F_READ ? "read" : r.fired & F_WRITE ? "write" : r.fired & F_FOPEN ? "fopen" : r.fired & F_RENAME ? "rename" : "freopen";
 			v.cls = "C19/io-failure-exit0";
 			v.sig = std::string("io-failure-exit0 ") + seam;
 			v.detail = std::string("an injected ") + seam + " failure fired, cproc-qbe still exited 0";
@@ -1019,7 +1035,7 @@ struct StatsB {
 	std::vector<Json> samples;
 };
 
-static const char *fired_names[] = {"alloc", "read", "write", "fopen", "freopen", "eof", "flip", "tripwire"};
+static const char *fired_names[] = {"alloc", "read", "write", "fopen", "freopen", "eof", "flip", "tripwire", "rename"};
 
 static void usage_exit() {
 	fprintf(stderr, "usage: simB run --prop C03|C19|C20 [--space NAME] --seed N --start A --stride K --count N --repo DIR [--out F] [--hashes F] [--replay-dir D] [--known-sigs F]\n"
@@ -1149,7 +1165,7 @@ int main(int argc, char **argv) {
 		st.distinct.insert(o.r.ev_hash);
 		st.outcomes[o.r.kind == K_EXIT ? "exit:" + std::to_string(o.r.status) : std::string(kind_name[o.r.kind])]++;
 		for (auto &f : p.faults) st.configured[f.seam]++;
-		for (int b = 0; b < 8; b++) if (o.r.fired & (1u << b)) st.firedk[fired_names[b]]++;
+		for (int b = 0; b < 9; b++) if (o.r.fired & (1u << b)) st.firedk[fired_names[b]]++;
 		if (o.r.fired && o.r.fault_fn[0]) {
 			for (int b = 0; b < 5; b++) if (o.r.fired & (1u << b)) st.sites[std::string(fired_names[b]) + "@" + fn_name(o.r.fault_fn[0])]++;
 		}
